@@ -47,7 +47,7 @@ RFrame == /\ Is("rFrame") /\ Ev.n = 0
           /\ (Param("200") = 1 /\ SizeKnown) => Ev.fcs = cs.srcSize
           /\ (Param("200") = 0) => Ev.fcs = -1
           /\ Ev.fcs # -1 => Ev.fcs = cs.srcSize
-          /\ Ev.checksum = Param("201")
+          /\ Ev.checksum = (IF Param("201") # 0 THEN 1 ELSE 0)        \* (any non-zero value of the frame parameter asks for a checksum)
           /\ Ev.dictID = (IF cs.usedDict = 1 /\ Param("202") = 1 THEN cs.dictID ELSE 0)
           /\ (Ev.single = 1) => Ev.window = cs.srcSize
           /\ (Ev.single = 0 /\ Param("101") # 0) => Ev.window <= Pow2(Param("101"))
